@@ -107,6 +107,21 @@ theorem sumTo_support3 (f : ℕ → α) (n p q r : ℕ) (hpq : p ≠ q) (hpr : p
   rw [sumTo_congr _ _ n key, sumTo_add, sumTo_add, sumTo_delta _ n p hp, sumTo_delta _ n q hq, sumTo_delta _ n r hr]
 
 
+theorem sumTo_eq_zero_of_nonneg (f : ℕ → α) (n : ℕ) (h : ∀ j, j < n → 0 ≤ f j) (h0 : sumTo f n = 0) :
+    ∀ j, j < n → f j = 0 := by
+  induction n with
+  | zero => intro j hj; omega
+  | succ n ih =>
+    intro j hj
+    simp only [sumTo] at h0
+    have hn := sumTo_nonneg f n (fun j hj => h j (Nat.lt_succ_of_lt hj))
+    have hfn := h n (Nat.lt_succ_self n)
+    have e1 : sumTo f n = 0 := by linarith
+    have e2 : f n = 0 := by linarith
+    by_cases hjn : j = n
+    · subst hjn; exact e2
+    · exact ih (fun j hj => h j (Nat.lt_succ_of_lt hj)) e1 j (by omega)
+
 /-! ### rows of the balance matrix (Z = m+1) -/
 
 theorem rowDot_norm (Z : ℕ) (S A : ℕ → α) (tcx : Option (ℕ → α)) (ne nD : α) (x : ℕ → α) :
